@@ -955,6 +955,111 @@ def binary(out: hlib.RecWriter, stats: dict) -> None:
     stats['bin'] = out.n
 
 
+def bin_cases(case_file: str, out: hlib.RecWriter, stats: dict) -> None:
+    """The binary database against the ORIGINAL definitions: every case TLC enumerated is built
+    through the API; the representable ones ride along with the bundled definitions through one
+    serialise(), and are then read both lazily (get_ent, seeded order) and all at once (get_fgd);
+    the others must each be refused.  Plus: every entity of an FGD must come back at all."""
+    import warnings
+    cases = json.load(open(case_file))
+    rng = random.Random(hlib.seed() * 13 + 1603)
+    F._ENGINE_DB = None
+    whole = FGD.engine_dbase()
+    F._ENGINE_DB = None
+    sig = {'kind': 'bin', 'action': 'serialise', 'src': 'mc'}
+    orig: dict = {}
+    refused = []
+    for n, case in enumerate(cases):
+        p = dict(case['doc'])
+        p['cls'] = f'verif_case_{n}'
+        ent = build_ent(p)
+        built = doc_proj(ent)
+        diff = [k for k in p if k != 'helpers' and built.get(k) != p[k]]
+        if diff:
+            raise SystemExit(f'MACHINERY: built definition differs from the model case in {diff}')
+        if case['rep']:
+            whole.entities[p['cls']] = ent
+            orig[p['cls']] = built
+        else:
+            refused.append((ent, built))
+    buf = io.BytesIO()
+    err = ''
+    try:
+        with contextlib.redirect_stdout(io.StringIO()), warnings.catch_warnings():
+            warnings.simplefilter('ignore')
+            EDB.serialise(whole, buf)
+    except Exception as exc:
+        err = type(exc).__name__
+    if err:
+        for key, p in orig.items():
+            out.write({'k': 'bin', 'orig': p, 'err': err, 'root': '_CBaseEntity_', 'sig': dict(sig, mode='serialise')})
+    else:
+        lazy = EDB.unserialise(io.BytesIO(buf.getvalue()))
+        keys = sorted(orig)
+        rng.shuffle(keys)
+        try:
+            full = EDB.unserialise(io.BytesIO(buf.getvalue())).get_fgd()
+            full_err = ''
+        except Exception as exc:
+            full, full_err = None, type(exc).__name__
+        for key in keys:
+            for mode in ('lazy', 'full'):
+                rec = {'k': 'bin', 'orig': orig[key], 'err': '', 'root': '_CBaseEntity_', 'sig': dict(sig, mode=mode)}
+                try:
+                    if mode == 'lazy':
+                        rec['got'] = doc_proj(lazy.get_ent(orig[key]['cls']))
+                    elif full is None:
+                        rec['err'] = full_err
+                    else:
+                        rec['got'] = doc_proj(full[orig[key]['cls']])
+                except Exception as exc:
+                    rec['err'] = type(exc).__name__
+                out.write(rec)
+    # what the format cannot hold must be refused (each on a small database of bundled definitions)
+    F._ENGINE_DB = None
+    small_src = FGD.engine_dbase()
+    F._ENGINE_DB = None
+    names = ['_cbaseentity_'] + sorted(k for k in small_src.entities if k != '_cbaseentity_')[:150]
+    for ent, built in refused:
+        fgd = FGD()
+        for k in names:
+            fgd.entities[k] = small_src.entities[k]
+        fgd.entities[ent.classname] = ent
+        err = ''
+        try:
+            with contextlib.redirect_stdout(io.StringIO()), warnings.catch_warnings():
+                warnings.simplefilter('ignore')
+                EDB.serialise(fgd, io.BytesIO())
+        except Exception as exc:
+            err = type(exc).__name__
+        out.write({'k': 'bin', 'orig': built, 'err': err, 'root': '_CBaseEntity_', 'sig': dict(sig, action='refuse', mode='refuse')})
+    # every entity must come back: FGDs of 2..7 large entities (whatever is left over when blocks are built)
+    for n_ents, n_kv in ((2, 150), (3, 100), (4, 80), (5, 60), (7, 50)):
+        F._ENGINE_DB = None
+        root = FGD.engine_dbase()['_CBaseEntity_']
+        F._ENGINE_DB = None
+        fgd = FGD()
+        fgd.entities['_cbaseentity_'] = root
+        want = []
+        for i in range(n_ents):
+            ent = EntityDef(EntityTypes.POINT, f'verif_big_{i}')
+            for j in range(n_kv):
+                ent.keyvalues[f'k{i}_{j}'] = {frozenset(): KVDef(f'k{i}_{j}', ValueTypes.INT, f'Caption {i} {j}', str(j))}
+            fgd.entities[ent.classname] = ent
+            want.append(ent.classname)
+        rec = {'k': 'binset', 'want': sorted(want), 'got': [], 'err': '', 'n': n_ents,
+               'sig': {'kind': 'bin', 'action': 'serialise', 'src': 'count', 'mode': 'classes'}}
+        try:
+            b2 = io.BytesIO()
+            with contextlib.redirect_stdout(io.StringIO()):
+                EDB.serialise(fgd, b2)
+            rec['got'] = sorted(k for k in EDB.unserialise(io.BytesIO(b2.getvalue())).get_classnames() if k != '_cbaseentity_')
+        except Exception as exc:
+            rec['err'] = type(exc).__name__
+        out.write(rec)
+    stats['bincases'] = out.n
+
+
 def doc_replay(replay_file: str, out: hlib.RecWriter) -> None:
     rp = json.load(open(replay_file))
     rec = rp['record']
@@ -1001,6 +1106,8 @@ def main() -> None:
         bundled(out, stats)
     elif mode == 'binary':
         binary(out, stats)
+    elif mode == 'bincases':
+        bin_cases(sys.argv[2], out, stats)
     elif mode == 'docreplay':
         doc_replay(sys.argv[2], out)
     else:
